@@ -518,7 +518,17 @@ pub fn run_ctor(cfg: &Value) -> Value {
                 let params = RangeParameters::init(u("bit_length").max(1), u("cap"), pc).expect("params");
                 let commitments: Vec<RistrettoPoint> = (0..u("commitments")).map(|j| env::free_point(&format!("Vc_{}", j))).collect();
                 let promises: Vec<Option<u64>> = (0..u("promises")).map(|j| if j % 2 == 0 { Some(j as u64) } else { None }).collect();
-                let seed = if cfg["seeded"].as_bool().unwrap_or(false) { Some(env::sym_scalar("seed_c", "seed")) } else { None };
+                // the documented domain does not depend on the VALUE of the seed: special scalars (0, 1, -1) are seeds like any other
+                let seed = if cfg["seeded"].as_bool().unwrap_or(false) {
+                    Some(match cfg["seed_value"].as_str() {
+                        Some("zero") => Scalar::ZERO,
+                        Some("one") => Scalar::ONE,
+                        Some("minus_one") => -Scalar::ONE,
+                        _ => env::sym_scalar("seed_c", "seed"),
+                    })
+                } else {
+                    None
+                };
                 match RangeStatement::init(params, commitments.clone(), promises.clone(), seed) {
                     Ok(s) => json!({"ok": {"commitments": s.commitments.len(), "promises_equal": s.minimum_value_promises == promises,
                         "commitments_equal": s.commitments == commitments, "compressed": s.commitments_compressed.len(), "seed": s.seed_nonce.is_some()}}),
@@ -530,7 +540,8 @@ pub fn run_ctor(cfg: &Value) -> Value {
                 let openings: Vec<CommitmentOpening> = counts
                     .iter()
                     .enumerate()
-                    .map(|(j, c)| CommitmentOpening::new(j as u64 + 1, (0..*c).map(|k| env::sym_scalar(&format!("rw_{}_{}", j, k), "blinding")).collect()))
+                    .map(|(j, c)| CommitmentOpening::new(if cfg["value"].as_u64().is_some() { cfg["value"].as_u64().unwrap() } else { j as u64 + 1 },
+                        (0..*c).map(|k| if is_zeroed(cfg, k) { Scalar::ZERO } else { env::sym_scalar(&format!("rw_{}_{}", j, k), "blinding") }).collect()))
                     .collect();
                 let rl: Vec<Value> = openings.iter().map(|o| match o.r_len() {
                     Ok(l) => json!(l),
@@ -546,7 +557,7 @@ pub fn run_ctor(cfg: &Value) -> Value {
                     Ok(d) => d,
                     Err(_) => return json!({"skip": "degree"}),
                 };
-                let b: Vec<Scalar> = (0..u("len")).map(|k| env::sym_scalar(&format!("mk_{}", k), "blinding")).collect();
+                let b: Vec<Scalar> = (0..u("len")).map(|k| if is_zeroed(cfg, k) { Scalar::ZERO } else { env::sym_scalar(&format!("mk_{}", k), "blinding") }).collect();
                 match ExtendedMask::assign(d, b.clone()) {
                     Ok(m) => json!({"ok": {"len": m.blindings().map(|v| v.len()).unwrap_or(0), "equal": m.blindings().map(|v| v == b).unwrap_or(false)}}),
                     Err(e) => json!({"err": format!("{:?}", e)}),
@@ -554,8 +565,9 @@ pub fn run_ctor(cfg: &Value) -> Value {
             },
             "commit" => {
                 let pc = ristretto::create_pedersen_gens_with_extension_degree(ext_degree(u("degree")));
-                let b: Vec<Scalar> = (0..u("len")).map(|k| env::sym_scalar(&format!("ck_{}", k), "blinding")).collect();
-                match pc.commit(&Scalar::from(7u64), &b) {
+                // ... nor on the VALUES of the blinding factors or of the committed value: zero entries are legal
+                let b: Vec<Scalar> = (0..u("len")).map(|k| if is_zeroed(cfg, k) { Scalar::ZERO } else { env::sym_scalar(&format!("ck_{}", k), "blinding") }).collect();
+                match pc.commit(&Scalar::from(cfg["value"].as_u64().unwrap_or(7)), &b) {
                     Ok(_) => json!({"ok": {}}),
                     Err(e) => json!({"err": format!("{:?}", e)}),
                 }
@@ -566,6 +578,15 @@ pub fn run_ctor(cfg: &Value) -> Value {
     match r {
         Ok(v) => v,
         Err(_) => json!("panic"),
+    }
+}
+
+/// ctor scenario: is blinding component k forced to the zero scalar? ("zero": "all" | [indices])
+fn is_zeroed(cfg: &Value, k: usize) -> bool {
+    match &cfg["zero"] {
+        Value::String(s) => s == "all",
+        Value::Array(a) => a.iter().any(|v| v.as_u64() == Some(k as u64)),
+        _ => false,
     }
 }
 
